@@ -200,7 +200,8 @@ class GlobInit(Contract):
                 kw['exclude'] = (b'y' if b else 'y') if ev(self.excl_is_str) else [b'y' if b else 'y']
             if not ev(self.root_none):
                 kw['root_dir'] = b'.' if ev(self.root_bytes) else '.'
-            return glob.Glob(pat, flags=fl, limit=lim, **kw)
+            with FL.spec_callees():
+                return glob.Glob(pat, flags=fl, limit=lim, **kw)
         host = [z3.Not(FL.PLAT_WIN), FL.CASE_FS, z3.Not(FL.OS_NT), z3.Not(self.empty_list), self.L >= 0, self.L < 1000]      # Linux host; one pattern 'x' (and 'y' excluded)
         return init_crosscheck(self, eng, paths, inp, build, extra=host, vary=[self.F, self.has_excl, self.pat_bytes, self.root_none], samples_per_path=2,
                                skip=('total', 'current_limit', 'pattern', 'npatterns', 'nounique', 'seen'))      # state the abstract _parse_patterns calls change
